@@ -332,7 +332,11 @@ func (c *Check) triviaJobs(entry, ver string, every int, rich bool, fuel int64, 
 			}
 			used = true
 			ngap++
-			for _, alt := range triviaAlternatives(g, rich) {
+			alts := triviaAlternatives(g, rich)
+			if c.TriviaEmpty && g.Ctx == "" {
+				alts = append(alts, []string{tH('s', 0, 1)})
+			}
+			for _, alt := range alts {
 				segs := []string{tC(s.Src[:g.From])}
 				segs = append(segs, alt...)
 				segs = append(segs, tC(s.Src[g.To:]))
@@ -354,6 +358,83 @@ func (c *Check) triviaJobs(entry, ver string, every int, rich bool, fuel int64, 
 	}
 	c.Extra["corpus_snippets_used_"+ver] = nsn
 	c.Extra["trivia_gaps_"+ver] = ngap
+	return needs, nil
+}
+
+// lexemeJobs: S5 - one byte of a name, variable, number, string body or inline HTML
+// replaced by a symbolic byte of the same lexical class (names and strings include the
+// bytes >= 0x80, string bodies and HTML include line terminators). every: use every
+// n-th eligible token.
+func (c *Check) lexemeJobs(entry, ver string, every int, fuel int64) ([]JobNeed, error) {
+	snips, pr, ids, err := c.corpusFor(ver)
+	if err != nil {
+		return nil, err
+	}
+	var needs []JobNeed
+	n := 0
+	hole := func(s *Snip, at int, class byte) {
+		if at < 0 || at >= len(s.Src) || !utf8.ValidString(s.Src[:at]) || !utf8.ValidString(s.Src[at+1:]) {
+			return
+		}
+		j := jobTmpl(entry, "S5 lexeme", tmpl(tC(s.Src[:at]), tH(class, 1, 1), tC(s.Src[at+1:])), ver, fuel)
+		j.Params["base"] = ""
+		j.Params["prev"] = 0
+		j.Params["next"] = 0
+		j.Params["ctx"] = ""
+		needs = append(needs, JobNeed{Job: j})
+	}
+	k := 0
+	for _, s := range snips {
+		p := pr[s.ID]
+		if p == nil || p.NErr != 0 || s.Class == "pair" {
+			continue
+		}
+		for _, t := range p.Toks {
+			if t.FF || t.End <= t.Start {
+				continue
+			}
+			var first, last int = -1, -1
+			var cf, cl byte
+			switch t.ID {
+			case ids.id("T_STRING"), ids.id("T_STRING_VARNAME"):
+				first, cf = t.Start, 'I'
+				if t.End-t.Start >= 2 {
+					last, cl = t.End-1, 'j'
+				}
+			case ids.id("T_VARIABLE"):
+				if t.End-t.Start >= 2 {
+					first, cf = t.Start+1, 'I'
+				}
+				if t.End-t.Start >= 3 {
+					last, cl = t.End-1, 'j'
+				}
+			case ids.id("T_LNUMBER"), ids.id("T_NUM_STRING"):
+				last, cl = t.End-1, 'd'
+			case ids.id("T_CONSTANT_ENCAPSED_STRING"):
+				if t.End-t.Start >= 3 {
+					first, cf = t.Start+1, 'q'
+				}
+			case ids.id("T_ENCAPSED_AND_WHITESPACE"):
+				first, cf = t.Start, 'q'
+			case ids.id("T_INLINE_HTML"):
+				first, cf = t.Start, 'h'
+			default:
+				continue
+			}
+			k++
+			if every > 1 && (k+s.ID)%every != 0 {
+				continue
+			}
+			n++
+			if first >= 0 {
+				hole(s, first, cf)
+			}
+			if last >= 0 {
+				hole(s, last, cl)
+			}
+		}
+	}
+	c.Extra["lexeme_holes_"+ver] = n
 	return needs, nil
 }
 
